@@ -146,10 +146,10 @@ def run(c):
     if len(cases) < nseq + 2000 or len({repr(x[1]) for x in cases}) != len(cases) or nsingle < 2000:
         raise Machinery("unexpected number of emitted messages: %d (%d single-field, %d states)" % (len(cases), nsingle, r.distinct))
     # the pinned code's mpint zero (deflate_long(0) = one zero byte) as a model: MpintCanonical must fail
-    c.mc("WireCodec", cfg("MpintOnly", 1, zero_as_byte=True, invariants=INVS), expect="MpintCanonical", workers=4,
+    c.mc("WireCodec", cfg("MpintOnly", 1, zero_as_byte=True, invariants=["MpintCanonical"]), expect="MpintCanonical", workers=4,
          name="faithful to pinned add_mpint(0)")
     for mut, vals, mf, inv in MUTATIONS[:0 if c.quick else None]:
-        c.mc("WireCodec", cfg(vals, mf, mutation=mut, invariants=INVS), expect=inv, name="mutation " + mut, workers=4)
+        c.mc("WireCodec", cfg(vals, mf, mutation=mut, invariants=[inv]), expect=inv, name="mutation " + mut, workers=4)
 
     # ---- RP: spec -> code.  Every emitted message through the real Message, compared with what TLC says
     batch, must_flag = [], set()
@@ -183,8 +183,11 @@ def run(c):
     flagged = judge(c, batch)
     c.traces += len(batch) - n_rp
     for tid in range(1, n_rp + 1):
-        if (tid in must_flag) != (tid in flagged):
-            raise Machinery("replay comparison and trace verdict disagree on %s" % describe(batch[tid - 1], 1))
+        # TLC (the oracle) has the last word: only "equals what TLC emitted, yet flagged by TLC" is a harness inconsistency
+        if tid not in must_flag and tid in flagged:
+            raise Machinery("TLC flags a message that equals what TLC emitted: %s" % describe(batch[tid - 1], 1))
+        if tid in must_flag and tid not in flagged:
+            c.conformance("differs_from_emitted_unflagged", "differs from the emitted case in a way no clause covers: " + describe(batch[tid - 1], 1))
 
     if flagged and not (c.violations or c.known_hits or c.conf):
         raise Machinery("TLC flagged %d traces but no verdict was registered" % len(flagged))
